@@ -458,6 +458,7 @@ type replica struct {
 	lastID  tmtypes.BlockID
 	appHash []byte
 	valset  map[string]int64 // consensus set folded from InitChain/EndBlock updates: hex(pubkey) -> power
+	valHist map[int64]map[string]int64 // the folded set as it stood after each block (evidence carries the power at the infraction height)
 	valAddr map[string]string
 	results []BlockRes
 	genesis app.GenesisState
@@ -616,8 +617,16 @@ func (r *replica) runBlock(b BlockSpec) BlockRes {
 		if i := strings.Index(e, "@"); i >= 0 {
 			name = e[:i]
 			fmt.Sscanf(e[i+1:], "%d", &eh)
+			if eh < 0 { // "@-k": k blocks before this one
+				eh = h + eh
+			}
 		}
-		byz = append(byz, abci.Evidence{Type: tmtypes.ABCIEvidenceTypeDuplicateVote, Validator: abci.Validator{Address: caddr(name), Power: r.valset[hex.EncodeToString(ckey(name).PublicKey().RawBytes())]},
+		pkey := hex.EncodeToString(ckey(name).PublicKey().RawBytes())
+		power := r.valset[pkey]
+		if hs, ok := r.valHist[eh]; ok {
+			power = hs[pkey] // Tendermint reports the validator's power at the height of the infraction
+		}
+		byz = append(byz, abci.Evidence{Type: tmtypes.ABCIEvidenceTypeDuplicateVote, Validator: abci.Validator{Address: caddr(name), Power: power},
 			Height: eh, Time: chainT0.Add(time.Duration(eh) * chainBlockInterval), TotalVotingPower: 10})
 	}
 	block := tmtypes.MakeBlock(h, txs, &tmtypes.Commit{}, nil)
@@ -690,6 +699,14 @@ func (r *replica) runBlock(b BlockSpec) BlockRes {
 	br.AppHash = hex.EncodeToString(cm.Data)
 	r.lastID = tmtypes.BlockID{Hash: block.Hash(), PartsHeader: parts.Header()}
 	r.height = h
+	if r.valHist == nil {
+		r.valHist = map[int64]map[string]int64{}
+	}
+	snap := map[string]int64{}
+	for k, v := range r.valset {
+		snap[k] = v
+	}
+	r.valHist[h] = snap
 	for _, p := range b.PostChain {
 		br.Probes = append(br.Probes, "post:"+r.runProbe(p))
 	}
